@@ -13,7 +13,10 @@ Items travel as
 * `mp.marshal <value> <ty> ((h<cut> x<safe>)*)` → `ok <item>` | `err` | `panic` | `unmodelled`
   (the third argument is the oracle column: `ctystrings.SafeKnownPrefix` of every
   byte-cut prefix that occurs in the value, computed by the real function)
-* `mp.unmarshal <item> <ty>` → `ok <value>` …, sets printed without bucket ids, members sorted
+* `mp.unmarshal <item> <ty>` → `ok <value>` …, sets printed without bucket ids, members sorted; the
+  refinement builder's number equality is `textOracle` (= `rawNumberEqual`, what the code does)
+* `mp.unmarshalx` the same with `partialOracle` (exact; `unmodelled` where the answer could depend on
+  the decimal text) — the instance the theorems of `Props/C16.lean` are stated for
 * `mp.implied <item>` → `ok <ty>` …
 * `mp.parse x<hex>` → `ok <num>` … (`cty.ParseNumberVal`)
 * `mp.fits <value> <ty> <oracle>` → `0|1`: the hypotheses of `C16.roundtrip_covers` (`Fits`, conformance)
@@ -143,7 +146,11 @@ def handleMsgpack : Handler := fun op args =>
   | "mp.unmarshal", [it, t] => do
     let it ← itemOfSexp it
     let t ← Ty.ofSexp t
-    pure (resTag canonV (unmarshal (extOf []) it t))
+    pure (resTag canonV (@unmarshal Refine.textOracle (extOf []) it t))
+  | "mp.unmarshalx", [it, t] => do
+    let it ← itemOfSexp it
+    let t ← Ty.ofSexp t
+    pure (resTag canonV (@unmarshal Refine.partialOracle (extOf []) it t))
   | "mp.implied", [it] => do
     let it ← itemOfSexp it
     pure (resTag (fun t => toString t.toSexp) (impliedType (extOf []) it))
